@@ -41,6 +41,16 @@ CLAIMS = {
              "the log hypotheses are checked per run, not proved for the indexer.",
         tech="Lean 4 proof (invariants over operation logs) + op-sequence correspondence by replaying the real log",
         ref="DESIGN.md §7 C06"),
+    "C07": dict(
+        text="Lean theorems on the model of the hand-maintained salsa inputs: history_independent (after any history of edits and "
+             "root selections ending in a root selection, the observable inputs - file set, root, per-file content and include "
+             "map - equal those of a freshly started host given only the final file system and root) and nothing_survives "
+             "(set_root_file depends on the file system, the root and the root's text only). The same histories run on a real "
+             "AnalysisHost: the full query set after the history is compared with a freshly started host (order-insensitive where "
+             "hash containers are iterated), and file sets / include maps are compared with the model.",
+        note="salsa memoisation/invalidation is trusted (exercised, not modelled). Model: Host.lean vs analysis.rs/file_system.rs/db.rs.",
+        tech="Lean 4 proof (lock-step relational invariant over the collect_sources worklist) + history correspondence on a real AnalysisHost",
+        ref="DESIGN.md §7 C07"),
     "C10": dict(
         text="Lean theorems for all texts: roundtrip (every char-boundary offset converts to a position and back), "
              "boundary_has_position (totality), line_contains, column_is_utf16, only LF/CR/CRLF break lines, clamp, "
